@@ -299,4 +299,14 @@ func (c *simCodec) Marshal(m any) ([]byte, error) {
 	return c.inner.Marshal(m)
 }
 
-func (c *simCodec) Unmarshal(b []byte, m any) error { return c.inner.Unmarshal(b, m) }
+// unmarshalEOFMarker: a payload that starts with this makes the codec give
+// up with an error that wraps io.EOF - what encoding/json's Decoder, gob and
+// most stream decoders report for input that ends before a value does.
+var unmarshalEOFMarker = []byte("\xfeEOF-FROM-CODEC")
+
+func (c *simCodec) Unmarshal(b []byte, m any) error {
+	if bytes.HasPrefix(b, unmarshalEOFMarker) {
+		return fmt.Errorf("sim codec: input ended before a value did: %w", io.EOF)
+	}
+	return c.inner.Unmarshal(b, m)
+}
